@@ -495,7 +495,15 @@ def vanish_oracle(it):
         return "harness died: %s" % it["stderr"][-300:]
     o = rec["out"]
     sc = c["scen"]
-    if sc in ("before", "during", "carrier"):
+    if sc == "server_dropped":
+        s = o["send"]
+        if s == "hang":
+            return "send to a client endpoint of a one-shot server that was dropped without accepting blocked for ever"
+        if s == "Ok":
+            return "send to a client endpoint of a one-shot server that was dropped without accepting (its receiving end no longer exists) reported success"
+        if not s.startswith("Err"):
+            return "unexpected result %s" % s
+    elif sc in ("before", "during", "carrier"):
         s = o["send"]
         if s == "hang":
             return "send to a receiver that no longer exists blocked for ever"
@@ -564,11 +572,14 @@ def check_C09(chk):
     for L in (100, 1 << 20):
         for proc in (0, 1):      # proc = how the carrier was received: 0 try_recv, 1 try_recv_timeout
             during.append({"id": next(nid), "scen": "execchild", "len": L, "proc": proc})
+    # the receiving end sits in a one-shot server that is dropped, unaccepted, after the client has connected
+    for L in (100, 1 << 20):
+        during.append({"id": next(nid), "scen": "server_dropped", "len": L})
     jobs.append((None, during))
     with concurrent.futures.ThreadPoolExecutor(max_workers=4) as ex:
         items = [it for r in ex.map(lambda j: run_vanish(bins["default"], j[0], j[1]), jobs) for it in r]
     # in-process transport: same scenarios except the forked ones
-    inp = [{"id": next(nid), "scen": sc, "len": L} for sc in ("transit", "carrier") for L in (100, 100000)]
+    inp = [{"id": next(nid), "scen": sc, "len": L} for sc in ("transit", "carrier", "server_dropped") for L in (100, 100000)]
     recs, _, _, err = C.run_harness(bins["inprocess"], "vanish", ["id=%d scen=%s len=%d" % (c["id"], c["scen"], c["len"]) for c in inp], shim=False, timeout=120)
     by = {r["id"]: r for r in recs if r.get("kind") == "vanish"}
     items += [{"case": dict(c, S=0, flavour="inprocess"), "rec": by.get(c["id"]), "send_obs": None, "recv_obs": None, "stderr": err} for c in inp]
@@ -606,6 +617,24 @@ def check_C09(chk):
         it = bad[0]
         chk.unproved("correspondence: call sequence of a send to a vanished receiver differs from Frag.send under [FPipe]",
                      {"input": it["case"], "observed_send": it["send_obs"]})
+    # in-process build: the dropped-server scenarios replayed on the InprocSrv LTS (send results in order)
+    itodo = []
+    for it in items:
+        c, rec = it["case"], it["rec"]
+        if c.get("flavour") == "inprocess" and c["scen"] == "server_dropped" and rec and rec["out"].get("send") in ("Ok",) or \
+           (c.get("flavour") == "inprocess" and c["scen"] == "server_dropped" and rec and str(rec["out"].get("send", "")).startswith("Err")):
+            itodo.append((len(itodo), "check_isrv_sends [INew; IConnect; IDropSrv; ISend 0] [%s]" % ("true" if rec["out"]["send"] == "Ok" else "false"), it))
+    if itodo:
+        iheader = "From Coq Require Import List Bool.\nFrom IPC Require Import InprocSrv InprocSrvCheck.\nImport ListNotations.\n"
+        ires, ierrors = C.coq_eval_sharded(iheader, [(i, t) for i, t, _ in itodo], lambda p: "Eval vm_compute in (%d, %s)." % p, "c09inproc")
+        ibad = [it for i, t, it in itodo if ires.get(i) != "true"]
+        chk.coverage["inproc_dropped_server_scenarios_replayed"] = len(itodo) - len(ibad)
+        if ierrors:
+            chk.unproved("model evaluation (coqc on in-process dropped-server cases) failed", ierrors[0][-1500:])
+        if ibad and not fails:
+            chk.unproved("correspondence InprocSrvCheck.check_isrv_sends: result of a send to a client endpoint of a dropped in-process server differs from the InprocSrv LTS",
+                         {"input": ibad[0]["case"], "observed": ibad[0]["rec"]})
+        bad = bad + ibad
     # receivers that vanish inside histories (dropped, moved, carried by messages that die or cannot be decoded): prog driver slice
     from . import props_prog as PP
     pf, pb = PP.prog_slice(chk, "C09", bins["default"], 400 if thorough else 48, 60)
